@@ -67,6 +67,7 @@ type FuncContract struct {
 	GhostEns   []*Clause
 	Assumes    []*Clause
 	AtCalls    map[string][]*Clause
+	AfterCalls map[string][]*Clause // assumptions about the results of calls (listed as trusted)
 	Modifies   []string
 	Loops      map[int]*LoopContract
 	NoPanic    bool
@@ -143,7 +144,7 @@ type Contracts struct {
 	Nclause int
 }
 
-var keywordRe = regexp.MustCompile(`^(spec|pred|axiom|lemma|globalinv|stablekeys|type|func|iface|functype|extern|props|atomic|holds|at_call|requires|ensures|ensures_panic|ghost_ensures|modifies|loop|assume|nopanic|maypanic|trusted|pure|readsclock|noaxioms|onlyaxioms|wiring|params|immutable|stable|guards|sink|protects|guarded_by|ghost|lockinv|extsync|mutators|setup|strings|noinline)\b`)
+var keywordRe = regexp.MustCompile(`^(spec|pred|axiom|lemma|globalinv|stablekeys|type|func|iface|functype|extern|props|atomic|holds|at_call|after_call|requires|ensures|ensures_panic|ghost_ensures|modifies|loop|assume|nopanic|maypanic|trusted|pure|readsclock|noaxioms|onlyaxioms|wiring|params|immutable|stable|guards|sink|protects|guarded_by|ghost|lockinv|extsync|mutators|setup|strings|noinline)\b`)
 
 var labelRe = regexp.MustCompile(`^([A-Za-z_][A-Za-z_0-9]*):([^:]|$)`)
 var propsRe = regexp.MustCompile(`^\{([A-Z0-9, ]+)\}\s*`)
@@ -485,6 +486,19 @@ func (cs *Contracts) LoadContractFile(path, pkg string) error {
 					curF.AtCalls = map[string][]*Clause{}
 				}
 				curF.AtCalls[fs[0]] = append(curF.AtCalls[fs[0]], c)
+			case "after_call":
+				fs := strings.Fields(rest)
+				if len(fs) < 2 {
+					return fail(l, "after_call KEY [label:] EXPR")
+				}
+				c, err := mkClause("after_call", strings.TrimSpace(strings.TrimPrefix(rest, fs[0])), l)
+				if err != nil {
+					return err
+				}
+				if curF.AfterCalls == nil {
+					curF.AfterCalls = map[string][]*Clause{}
+				}
+				curF.AfterCalls[fs[0]] = append(curF.AfterCalls[fs[0]], c)
 			case "loop":
 				fs := strings.Fields(rest)
 				if len(fs) < 3 {
